@@ -6,7 +6,18 @@ import "fmt"
 func unnamedEntry() Entry {
 	return Entry{Name: "unnamed", Build: func(f *Frag) {
 		f.Solo = true
-		switch f.N("form", 7) {
+		switch f.N("form", 9) {
+		case 7: // a definition that carries a number of another kind (!N) between unnamed globals
+			f.TopLine("@0 = global i32 10")
+			f.TopLine("!3 = !{}")
+			f.TopLine("@1 = global i32 20")
+			f.TopLine("@p = global i32* @1")
+			f.TopLine("!nm = !{!3}")
+		case 8: // an attribute group definition between unnamed functions
+			f.TopLine("define void @0() {\n  ret void\n}")
+			f.TopLine("attributes #5 = { nounwind }")
+			f.TopLine("define void @1() #5 {\n  ret void\n}")
+			f.TopLine("define void @caller() {\n  call void @1()\n  ret void\n}")
 		case 6: // two unnamed functions with equally named labels; blockaddress into both
 			f.TopLine("@ba0 = global i8* blockaddress(@0, %%a)")
 			f.TopLine("@ba1 = global i8* blockaddress(@1, %%a)")
